@@ -271,6 +271,8 @@ pub fn gen_expr(rng: &mut Rng, s: &Schema, ty: &Ty, depth: u32, cfg: &ExprCfg) -
             0..=3 => {
                 let o = *rng.pick(&["+", "-", "*", "/"]);
                 let l = g!(Ty::Int);
+                // no-value operands: zero divisor, and the one overflowing division i64::MIN / -1
+                if cfg.hostile && o == "/" && rng.chance(1, 6) { return bin("/", if rng.chance(1, 2) { int(i64::MIN) } else { l }, int(-1)); }
                 let r = if cfg.hostile && o == "/" && rng.chance(1, 3) { int(0) } else { g!(Ty::Int) };
                 bin(o, l, r)
             }
